@@ -30,6 +30,7 @@ func (s tokKeySUT[V]) Len() int            { return s.m.Len() }
 func (s tokKeySUT[V]) Shape() (int, int)   { return s.m.VerifShape() }
 func (s tokKeySUT[V]) Gen() int            { return s.m.VerifGen() }
 func (s tokKeySUT[V]) IsSet() bool         { return false }
+func (s tokKeySUT[V]) Raw() any            { m := s.m; return &m }
 func (s tokKeySUT[V]) Copy() SUT[int, V]   { m2 := s.m; return tokKeySUT[V]{m2} }
 func (s tokKeySUT[V]) First() (int, V) {
 	k, v := s.m.First()
